@@ -13,9 +13,9 @@ for name in sorted(os.listdir(os.path.join(ROOT, "seeded"))):
     det = [r["check"].split()[2] for r in m.get("ran", []) if r.get("detected")]
     miss = [r["check"].split()[2] for r in m.get("ran", []) if not r.get("detected")]
     kinds = sorted({v.split(":", 1)[1].strip().split(" ")[0] for r in m.get("ran", []) if r.get("detected") for v in r.get("violations", []) if ":" in v})[:3]
-    rows.append((name, m["property"], title, ", ".join(det) or "-", ", ".join(miss) or "-", "; ".join(kinds), m.get("first_run", ""), m.get("strengthening", "")))
+    rows.append((name, m["property"], title, ", ".join(det) or "-", ", ".join(miss) or "-", "; ".join(kinds), m.get("first_run", ""), m.get("strengthening", ""), ("yes" if m.get("confirmed", True) else "no (obsolete on this base)") + " @" + str(m.get("base", "e88df0e"))))
 out = ["# Seeded changes and the checks that catch them", "",
-       "| change | property | what it is | caught by (quick) | run but not caught | reported as | first run | what was strengthened |", "|---|---|---|---|---|---|---|---|"]
+       "| change | property | what it is | caught by (quick) | run but not caught | reported as | first run | what was strengthened | still breaks the property on base |", "|---|---|---|---|---|---|---|---|---|"]
 for r in rows:
     out.append("| " + " | ".join(x.replace("|", "\\|") for x in r) + " |")
 open(os.path.join(ROOT, "seeded", "MATRIX.md"), "w").write("\n".join(out) + "\n")
